@@ -130,19 +130,112 @@ impl<'a> GraphemeCluster<'a> {''')
                 ' && #[trigger] finals_exact(m, %s, %s) && reps_copied(p@, p@.len() as int, m, old(self).graph.edges(), final(self).graph.edges(), %s, %s)' % (F, F2, F, F2))
         cl = [Clause('recreate.initial_exact_edges', post, ['C01', 'C02', 'C16'])]
     b.verified_fn('dfa.rs', 'recreate_graph', within=D, requires=req, clauses=cl, props=['C07', 'C01', 'C02', 'C16'], loops=loops(kf), blocks=blocks(kf), fname='Dfa::recreate_graph')
-    if not kf:
-        unch = 'final(self).initial_state == old(self).initial_state, final(self).final_state_indices == old(self).final_state_indices'
-        b.assumed_fn('dfa.rs', 'find_next_state', within=D, ensures=[unch], why='`continue` inside `for` (Verus limit); known over-merging D2')
-        b.assumed_fn('dfa.rs', 'add_new_state', within=D, ensures=[unch], why='petgraph add_node/add_edge; only its frame is used')
-        b.verified_fn('dfa.rs', 'return_next_state', within=D, clauses=[Clause('return_next_state.frame', 'final(self).initial_state == old(self).initial_state && final(self).final_state_indices == old(self).final_state_indices', ['C01'])], props=['C07'], fname='Dfa::return_next_state')
-        b.verified_fn('dfa.rs', 'insert', within=D, props=['C07'], fname='Dfa::insert',
-                      clauses=[Clause('insert.start_unchanged', 'final(self).initial_state == old(self).initial_state', ['C01', 'C16']),
-                               Clause('insert.marks_reached_state', 'exists|last: State| final(self).final_state_indices@ == old(self).final_state_indices@.insert(last.ix as usize) && (cluster.graphemes@.len() == 0 ==> last == old(self).initial_state)', ['C01', 'C16'])],
-                      loops={1: ['self.initial_state == old(self).initial_state', 'self.final_state_indices == old(self).final_state_indices',
-                                 'it1.index@ == 0 ==> current_state == old(self).initial_state', 'it1.seq().len() == cluster.graphemes@.len()']},
-                      blocks=[(None, 'fn_end', '        proof { assert(self.final_state_indices@ == old(self).final_state_indices@.insert(current_state.ix as usize)); }')])
     b.emit('}\n} // verus!\nimpl Clone for Grapheme { fn clone(&self) -> Self { unimplemented!() } }\nfn main() {}')
     b.trusted += ['petgraph stand-in (StableGraph::{new, add_node, add_edge, neighbors, find_edge, edge_weight}, NodeIndex::index) with ghost nodes/edges; NodeIndex obeys the hash-key model',
                   'preconditions of recreate_graph (non-empty, pairwise disjoint, covering classes) are assumed of its unverified caller minimize',
                   'derived Clone on Grapheme is structural']
+    return b
+
+
+# ---------------------------------------------------------------------------------------------------------------------
+# unit `trie`: Dfa::insert / return_next_state / find_next_state / add_new_state (stage S2a: the trie accepts every inserted word)
+PRELUDE_TYPES = '''pub struct AlphabetStandIn { pub x: u8 }
+impl AlphabetStandIn { #[verifier::external_body] pub fn insert(&mut self, g: Grapheme) -> bool { unimplemented!() } }
+pub struct Dfa<'a> {
+    pub alphabet: AlphabetStandIn,
+    pub graph: StableGraph<StateLabel, EdgeLabel>,
+    pub initial_state: State,
+    pub final_state_indices: HashSet<usize>,
+    pub config: &'a RegExpConfig,
+}
+pub struct GraphemeCluster<'a> { pub graphemes: Vec<Grapheme>, pub config: &'a RegExpConfig }
+// std::cmp::{min, max} at u32 (dfa.rs imports them by name): specified stand-ins
+#[verifier::external_body] pub fn min(a: u32, b: u32) -> (r: u32) ensures r == (if a <= b { a } else { b }) { unimplemented!() }
+#[verifier::external_body] pub fn max(a: u32, b: u32) -> (r: u32) ensures r == (if a >= b { a } else { b }) { unimplemented!() }
+'''
+
+def build_trie(repo, spec_dir, canary=False):
+    b = Builder('trie', repo, canary)
+    b.emit('use vstd::prelude::*;\nuse vstd::std_specs::cmp::*;\nuse vstd::std_specs::hash::*;\nuse vstd::std_specs::vec::*;\nuse std::collections::{HashMap, HashSet};\nverus! {')
+    b.emit('broadcast use {vstd::std_specs::hash::group_hash_axioms, axiom_nodeindex_key_model, sp::lemma_scanned_all};')
+    b.type_item('config.rs', r'^pub struct RegExpConfig \{')
+    b.type_item('grapheme.rs', r'^pub struct Grapheme \{')
+    b.emit(open(spec_dir + '/petgraph_standin.rs').read())
+    b.emit('use pg::*;\ntype State = NodeIndex<u32>;\ntype StateLabel = String;\ntype EdgeLabel = Grapheme;')
+    b.emit('pub assume_specification [<Grapheme as Clone>::clone] (e: &Grapheme) -> (r: Grapheme) ensures r == *e;')
+    b.emit('pub mod sp {\nuse super::*;'); b.emit(open(spec_dir + '/dfa.rs').read()); b.emit('}\nuse sp::*;')
+    b.emit(PRELUDE_TYPES)
+    G = r'^impl Grapheme \{'
+    b.emit('impl Grapheme {')
+    b.assumed_fn('grapheme.rs', 'value', within=G, ensures=['r@ == joined(self.chars@)'], why='Vec<String>::join (std); uninterpreted `joined`')
+    for name, ens in [('chars', '*r == self.chars'), ('minimum', 'r == self.min'), ('maximum', 'r == self.max')]:
+        b.verified_fn('grapheme.rs', name, within=G, clauses=[Clause('grapheme.%s' % name, ens, ['C16'])], props=['C07'], fname='Grapheme::' + name)
+    b.verified_fn('grapheme.rs', 'new', within=G, props=['C07'], fname='Grapheme::new',
+                  clauses=[Clause('grapheme.new', 'r.chars == chars && r.min == min && r.max == max && r.repetitions@.len() == 0', ['C16', 'C13'])])
+    b.emit("}\nimpl<'a> GraphemeCluster<'a> {")
+    b.verified_fn('cluster.rs', 'graphemes', within="^impl<'a> GraphemeCluster<'a> \\{", clauses=[Clause('cluster.graphemes', '*r == self.graphemes', ['C01'])], props=['C07'], fname='GraphemeCluster::graphemes')
+    b.emit("}\nimpl<'a> Dfa<'a> {")
+    D = "^impl<'a> Dfa<'a> \\{"
+    O, N = 'old(self)', 'final(self)'
+    OE, NE = 'old(self).graph.edges()', 'final(self).graph.edges()'
+    frame = '%s.initial_state == %s.initial_state && %s.final_state_indices == %s.final_state_indices' % (N, O, N, O)
+    inv = lambda s: 'edges_closed(%s.graph.edges(), %s.graph.nodes()) && %s.graph.nodes().contains(%s.initial_state) && edges_wf(%s.graph.edges())' % (s, s, s, s, s)
+    S, X = ['C01', 'C16'], ['C16']            # S: soundness view (labels may only be widened), X: exactness view (labels never change)
+    # find_next_state: R14 (continue).  Soundness: a reused edge covers the inserted label and every old edge keeps covering its old label.
+    # Exactness (what "the trie accepts exactly the union" needs): an edge is reused only for the SAME label and no edge is relabelled.
+    b.verified_fn('dfa.rs', 'find_next_state', within=D, props=['C07'], fname='Dfa::find_next_state', desugar_continue=True,
+                  requires=[inv(O), '%s.graph.nodes().contains(current_state)' % O, 'exact_label(*grapheme)'],
+                  clauses=[Clause('find_next_state.frame', frame + ' && %s.graph.nodes() == %s.graph.nodes()' % (N, O), S),
+                           Clause('find_next_state.found_covering_label', 'r is Some ==> %s.contains_key((current_state, r->Some_0)) && label_covers(%s[(current_state, r->Some_0)], *grapheme)' % (NE, NE), ['C01', 'C03', 'C16']),
+                           Clause('find_next_state.only_widens', 'edges_cover(%s, %s) && %s.dom() == %s.dom() && edges_wf(%s)' % (OE, NE, NE, OE, NE), S),
+                           Clause('find_next_state.no_relabel', '%s == %s' % (NE, OE), X),
+                           Clause('find_next_state.found_same_label', 'edges_exact(%s) ==> (r is Some ==> %s.contains_key((current_state, r->Some_0)) && label_eq(%s[(current_state, r->Some_0)], *grapheme))' % (OE, OE, OE), X),
+                           Clause('find_next_state.none_means_absent', 'r is None ==> label_absent(%s, current_state, *grapheme)' % OE, X)],
+                  loops={1: ['*self == *old(self)', 'it1.seq() == into_iter_elts(it1.snapshot@)',
+                             'nb_ok(into_iter_elts(it1.snapshot@), current_state, self.graph.edges())', '0 <= it1.index@ <= it1.seq().len()',
+                             'self.graph.nodes().contains(current_state)', 'edges_closed(self.graph.edges(), self.graph.nodes())', 'edges_wf(self.graph.edges())', 'exact_label(*grapheme)',
+                             'scanned(into_iter_elts(it1.snapshot@), it1.index@, self.graph.edges(), current_state, *grapheme)']},
+                  blocks=[(1, 'loop_start', '            proof { assert(it1.seq().contains(next_state)) by { assert(it1.seq()[it1.index@] == next_state); } assert(self.graph.edges().contains_key((current_state, next_state))); }')])
+    b.verified_fn('dfa.rs', 'add_new_state', within=D, props=['C07'], fname='Dfa::add_new_state',
+                  requires=[inv(O), '%s.graph.nodes().contains(current_state)' % O],
+                  clauses=[Clause('add_new_state.frame', frame, S),
+                           Clause('add_new_state.fresh_edge', '!%s.graph.nodes().contains(r) && %s.graph.nodes() == %s.graph.nodes().insert(r) && %s == %s.insert((current_state, r), *edge_label)' % (O, N, O, NE, OE), S)])
+    b.verified_fn('dfa.rs', 'return_next_state', within=D, props=['C07'], fname='Dfa::return_next_state',
+                  requires=[inv(O), '%s.graph.nodes().contains(current_state)' % O, 'exact_label(*edge_label)'],
+                  clauses=[Clause('return_next_state.frame', frame, S),
+                           Clause('return_next_state.step_covers', '%s.contains_key((current_state, r)) && label_covers(%s[(current_state, r)], *edge_label) && edges_cover(%s, %s)' % (NE, NE, OE, NE), S),
+                           Clause('return_next_state.step_exact', 'edges_exact(%s) ==> label_eq(%s[(current_state, r)], *edge_label) && submap(%s, %s) && edges_exact(%s)' % (OE, NE, OE, NE, NE), X),
+                           Clause('return_next_state.invariants', inv(N) + ' && %s.graph.nodes().contains(r)' % N, S)])
+    b.verified_fn('dfa.rs', 'insert', within=D, props=['C07'], fname='Dfa::insert',
+                  requires=[inv(O), 'forall|i: int| 0 <= i < cluster.graphemes@.len() ==> exact_label(#[trigger] cluster.graphemes@[i])'],
+                  clauses=[Clause('insert.start_unchanged', '%s.initial_state == %s.initial_state' % (N, O), S),
+                           Clause('insert.accepting_path', 'exists|last: State| #[trigger] path_cov(%s, %s.initial_state, cluster.graphemes@, last) && %s.final_state_indices@ == %s.final_state_indices@.insert(last.ix as usize)' % (NE, N, N, O), S),
+                           Clause('insert.keeps_earlier_words', 'edges_cover(%s, %s)' % (OE, NE), S),
+                           Clause('insert.exact_path', 'edges_exact(%s) ==> exists|last: State| #[trigger] path(%s, %s.initial_state, cluster.graphemes@, last) && %s.final_state_indices@ == %s.final_state_indices@.insert(last.ix as usize)' % (OE, NE, N, N, O), X),
+                           Clause('insert.no_relabel', 'edges_exact(%s) ==> submap(%s, %s) && edges_exact(%s)' % (OE, OE, NE, NE), X),
+                           Clause('insert.invariants', inv(N), S)],
+                  loops={1: ['self.initial_state == old(self).initial_state', 'self.final_state_indices == old(self).final_state_indices',
+                             'it1.seq().len() == cluster.graphemes@.len()', 'forall|i: int| 0 <= i < it1.seq().len() ==> *#[trigger] it1.seq()[i] == cluster.graphemes@[i]',
+                             'forall|i: int| 0 <= i < cluster.graphemes@.len() ==> exact_label(#[trigger] cluster.graphemes@[i])',
+                             inv('self'), 'self.graph.nodes().contains(current_state)', 'edges_cover(old(self).graph.edges(), self.graph.edges())',
+                             ('insert.accepting_path@loop1', S, 'path_cov(self.graph.edges(), self.initial_state, cluster.graphemes@.take(it1.index@), current_state)'),
+                             ('insert.exact_path@loop1', X, 'edges_exact(old(self).graph.edges()) ==> edges_exact(self.graph.edges()) && submap(old(self).graph.edges(), self.graph.edges()) && path(self.graph.edges(), self.initial_state, cluster.graphemes@.take(it1.index@), current_state)')]},
+                  blocks=[(1, 'loop_start', '            let ghost e0 = self.graph.edges(); let ghost s0 = current_state;'),
+                          (1, 'loop_end', """            proof {
+                let k = it1.index@;
+                assert(*grapheme == cluster.graphemes@[k]);
+                lemma_path_cov_mono(e0, self.graph.edges(), self.initial_state, cluster.graphemes@.take(k), s0);
+                lemma_path_cov_snoc(self.graph.edges(), self.initial_state, cluster.graphemes@.take(k), s0, *grapheme, current_state);
+                lemma_edges_cover_trans(old(self).graph.edges(), e0, self.graph.edges());
+                assert(cluster.graphemes@.take(k).push(*grapheme) =~= cluster.graphemes@.take(k + 1));
+                if edges_exact(old(self).graph.edges()) {
+                    lemma_path_mono(e0, self.graph.edges(), self.initial_state, cluster.graphemes@.take(k), s0);
+                    lemma_path_snoc(self.graph.edges(), self.initial_state, cluster.graphemes@.take(k), s0, *grapheme, current_state);
+                }
+            }"""),
+                          (None, 'fn_end', '        proof { assert(cluster.graphemes@.take(cluster.graphemes@.len() as int) =~= cluster.graphemes@); assert(self.final_state_indices@ == old(self).final_state_indices@.insert(current_state.ix as usize)); }')])
+    b.emit('}\n} // verus!\nimpl Clone for Grapheme { fn clone(&self) -> Self { unimplemented!() } }\nfn main() {}')
+    b.trusted += ['petgraph stand-in (StableGraph::{add_node, add_edge, update_edge, neighbors, find_edge, edge_weight}) with ghost nodes/edges',
+                  'preconditions of insert (graph closed under its node set, exact labels min == max >= 1) are assumed of its unverified callers Dfa::new / Dfa::from and of the clusters',
+                  'Grapheme::value() is Vec<String>::join (uninterpreted `joined`); BTreeSet alphabet insertion is opaque', 'std::cmp::{min,max} at u32']
     return b
